@@ -40,11 +40,13 @@ def run(ctx):
             raise vlib.Infra("Committee.tla is vacuous: %s not refuted (violated=%s error=%s)" % (inv, rv.violated, rv.error))
     ctx.log("design committees: %d states; full two-role committees and refusals both reachable" % rc.distinct)
     ctx.coverage.update(states=res.distinct + rc.distinct, transitions=res.generated + rc.generated, committee_design_states=rc.distinct)
-    n = 4 if q else 40
-    blocks = 150 if q else 400
+    n = 3 if q else 40
+    blocks = 120 if q else 400
     lines, sums = [], []
     for extra in (["-maxvals", "3"], ["-maxvals", "2", "-extranodes", "1"], ["-maxvals", "1"],
                   ["-maxvals", "3", "-maxperentity", "2", "-extranodes", "2"],
+                  # escrows exactly at / just below / just above the claim thresholds and around one voting-power unit
+                  ["-tinystake", "-validators", "5", "-maxvals", "4"],
                   # VRF beacon backend: committee elections from VRF proofs (per-entity de-duplication and ordering by hashed
                   # betas); with a threshold of 5 proofs some epochs have a low-quality alpha and must elect no committee
                   ["-vrf", "-epoch", "6", "-validators", "5", "-maxgroup", "3"],
